@@ -8,6 +8,10 @@ def lookupLower (tbl : List (List Char × List Char)) (s : List Char) : List Cha
   | some p => p.2
   | none => s
 
+/-- the folding statements of `filter_names` as read from the source -/
+def srcShape : FoldShape :=
+  ⟨JediModel.Gen.C04.foldLikeMethod, JediModel.Gen.C04.foldNameMethod, JediModel.Gen.C04.lengthBeforeFold⟩
+
 def parseCand (j : Json) : Cand :=
   { str := chars j "str", pub := chars j "pub", isFunc := bool j "func", isDel := bool j "del" }
 
@@ -30,6 +34,31 @@ def handle (j : Json) : Json :=
       ("complete", jopt jchars (c.complete st)),
       ("nws", jchars (c.nameWithSymbols st)),
       ("plen", jnat c.prefixLength)])
+  | "complete_src" =>
+    -- `filter_names` + sort with the folding statements as the translator found them
+    let tbl (k : String) : List (List Char × List Char) := (arr j k).map fun p =>
+      match asArr p with
+      | [a, b] => ((asStr a).toList, (asStr b).toList)
+      | _ => ([], [])
+    let F : Folds := ⟨lookupLower (tbl "lower"), lookupLower (tbl "casefold"), lookupLower (tbl "upper")⟩
+    let st : Settings := { caseInsens := bool j "ci", addBracket := bool j "bracket" }
+    let out := completePythonSrc JediModel.Gen.C04.sortKeyComponents srcShape st F
+      ((arr j "cands").map parseCand) (chars j "like") (bool j "fuzzy")
+      ((strs j "imported").map String.toList)
+    jarr (out.map fun c => jobj [
+      ("name", jchars c.name),
+      ("complete", jopt jchars (c.complete st)),
+      ("nws", jchars (c.nameWithSymbols st)),
+      ("plen", jnat c.prefixLength)])
+  | "expand" =>
+    -- a case mapping applied code point by code point (table: code point -> string)
+    let tbl := (arr j "table").map fun p =>
+      match asArr p with
+      | [a, b] => ((asStr a).toList, (asStr b).toList)
+      | _ => ([], [])
+    let f : Char → List Char := fun ch => lookupLower tbl [ch]
+    let s := chars j "s"
+    jobj [("out", jchars (expand f s)), ("unit", jbool (unitOn f s))]
   | op => jobj [("error", jstr ("unknown op " ++ op))]
 
 def main : IO Unit := Proto.run handle
